@@ -32,7 +32,7 @@ ASSUMPTIONS = [
     "UTF-16 DiskDescriptor.xml files without entities are not judged (the reader reads text with the locale default)",
     "held means: held on the documents enumerated, not verified for all XML",
 ]
-MINIMA = {"quick": {"entity_documents": 600, "entity_documents_refused": 600, "benign_documents": 100}, "thorough": {"entity_documents": 3000}}
+MINIMA = {"quick": {"entity_documents": 600, "entity_documents_refused": 600, "benign_documents": 100}, "thorough": {"entity_documents": 10000}}
 MECH = "xml.entities"
 SECRET = "CANARY-SECRET-7f3a9c51"
 ENTRY = ["ovf", "vbox", "pvs", "hdd"]
@@ -41,7 +41,7 @@ ENTRY = ["ovf", "vbox", "pvs", "hdd"]
 def plan(tier: str, seed: int) -> list[dict]:
     cases = []
     classes = list(w.doctypes("r", "file:///x").keys())
-    reps = 3 if tier == "quick" else 10
+    reps = 3 if tier == "quick" else 30
     for ep in ENTRY:
         for cls in classes:
             for lead in range(len(w.LEADS)):
